@@ -588,6 +588,18 @@ TARGETS = [
          occurrences=dict(type="MPhase", forbid=r"\be\.sort\(\)|\.sort\(\)[^;{}]*\.finalize\(\)|\.map\(\|[^|]*\|\s*\{[^}]*sort",
                           rules=[(r"for entry_store in &mut self\.entry_stores \{\s*entry_store\.sort\(\);\s*\}", "sortAll"),
                                  (r"\.into_iter\(\)\s*\.map\(\|e\| e\.finalize\(\)\)\s*\.collect\(\)", "sizeAll")])),
+    # ---- the pack header: magic and kind, version gate, fields
+    dict(name="fullPackKindParse", group="Open", file="src/common/pack_kind.rs", fn="parse", after=r"impl Parsable for FullPackKind",
+         cfg=dict(params=[("bs", "Bytes")], ret="PackKind", outcome=True,
+                  reads={"read_u8": "takeLE bs 1"}, read_into={"magic": "takeBytes bs 3"}, ignore_lets=["magic"],
+                  paths={"JBK_MAGIC": "([106, 98, 107] : Bytes)", "PackKind::Manifest": "PackKind.manifest", "PackKind::Directory": "PackKind.directory",
+                         "PackKind::Content": "PackKind.content", "PackKind::Container": "PackKind.container"})),
+    dict(name="packHeaderParse", group="Open", file="src/common/headers/pack.rs", fn="parse", after=r"impl Parsable for PackHeader",
+         cfg=dict(params=[("bs", "Bytes")], ret="(PackKind × Bytes × Nat × Nat × Bytes × Nat × Nat × Nat)", outcome=True, err_kind=".version",
+                  reads={"read_u8": "takeLE bs 1", "skip": "takeBytes bs {0}"},
+                  read_calls={"FullPackKind::parse": "fullPackKindParse bs", "VendorId::parse": "takeBytes bs 4", "Uuid::parse": "takeBytes bs 16",
+                              "Size::parse": "takeLE bs 8", "Offset::parse": "takeLE bs 8"},
+                  struct_as={"PackHeader": ["magic", "app_vendor_id", "major_version", "minor_version", "uuid", "flags", "file_size", "check_info_pos"]})),
 ]
 
 
